@@ -49,6 +49,7 @@ typedef struct {
 } hist_t;
 
 static __thread char replay_buf[512];
+static int g_jump;
 static const char *prop_now(void) { return g_prop; }
 static int P(const char *p) { return !strcmp(g_prop, p); }
 
@@ -330,6 +331,18 @@ static int valid_submit(hist_t *h, int si, int start_new)
                 flags = (seg == total && rng_below(r, 2)) ? ISAL_HASH_ENTIRE : ISAL_HASH_FIRST;
         } else {
                 uint32_t rem = (uint32_t) (s->msglen - s->off);
+                if (g_jump && rng_below(r, 100) < 30) {
+                        /* C15 fast path: while the context is idle, move its documented running total (and the model's) forward by a
+                         * whole number of blocks so that the following segments cross 2^29 / 2^32 / 2^32+2^29 at every residue;
+                         * the bytes hashed are unchanged, only the length that must end up in the padding differs */
+                        static const uint64_t thr[3] = { 1ull << 29, 1ull << 32, (1ull << 32) + (1ull << 29) };
+                        uint64_t T = thr[rng_below(r, 3)], B = (uint64_t) a->block;
+                        if (s->total + 4 * B < T) {
+                                uint64_t D = ((T - s->total) / B - rng_below(r, 3)) * B;
+                                *(uint64_t *) (s->ctx + a->off_total) += D; s->total += D; s->rh.total += D;
+                                out_count("length_jumps", 1);
+                        }
+                }
                 /* exactly complete / underfill / overshoot the carried partial block */
                 uint32_t pbl = (uint32_t) (s->total % (uint64_t) a->block), need = (uint32_t) a->block - pbl;
                 switch (rng_below(r, 6)) {
@@ -440,6 +453,7 @@ static void run_history(const hcfg_t *cfg, uint64_t case_seed, hres_t *res, uint
         cur_label[0] = 0;
         if (irc) viol(h, "C06", "init-failed", "isal mgr init returned %d", irc);
         int nops = 10 + (int) rng_below(r, 70);
+        if (rng_below(r, 60) == 0) nops = 1500 + (int) rng_below(r, 2500);     /* occasionally a long life of one manager and its contexts */
         int bad = 0;
         for (int step = 0; step < nops && !bad; step++) {
                 uint32_t w = rng_below(r, 100);
@@ -550,6 +564,7 @@ int main(int argc, char **argv)
         const char *algs = arg_str("--alg", "all"), *fams = arg_str("--fam", "all"), *routes = arg_str("--route", "fam");
         int inject = (int) arg_int("--inject", 8), guard = (int) arg_int("--guard", 0), pair = (int) arg_int("--pair", 0);
         int threads = (int) arg_int("--threads", 0);
+        g_jump = (int) arg_int("--jump", 0);
         int sampled = 0;
         for (int ai = 0; ai < 5; ai++) {
                 const halg_t *a = &halgs[ai];
